@@ -115,5 +115,33 @@ def install(prog):
     def _(I, a, c): return Opaque('io::Error')
     @M('zeroed', 'mem::zeroed', 'std::mem::zeroed')
     def _(I, a, c): return Opaque('zeroed')
-    @M('sigemptyset', 'sigaddset', 'libc::sigemptyset', 'libc::sigaddset', 'libc::pthread_sigmask', 'pthread_sigmask', 'libc::signal', 'signal')
+    @M('libc::signal', 'signal')
     def _(I, a, c): return 0
+    # signal masks: a sigset_t is an Opaque whose data is a python set; the calling process' mask is I.sigmask
+    def _sigset(I, ptr):
+        o = I.deref(ptr)
+        if not isinstance(o, Opaque): raise Unsupported('sigset_t operand %r' % (o,))
+        if not isinstance(o.data, set): o.data = set()
+        return o
+    def _isnull(I, ptr): return isinstance(ptr, Opaque) and ptr.what == 'null'
+    @M('null_mut', 'ptr::null_mut', 'std::ptr::null_mut', 'null', 'ptr::null', 'std::ptr::null')
+    def _(I, a, c): return Opaque('null')
+    @M('sigemptyset', 'libc::sigemptyset')
+    def _(I, a, c):
+        _sigset(I, a[0]).data = set(); return 0
+    @M('sigaddset', 'libc::sigaddset')
+    def _(I, a, c):
+        _sigset(I, a[0]).data.add(I.concretize(a[1])); return 0
+    @M('libc::pthread_sigmask', 'pthread_sigmask', 'libc::sigprocmask', 'sigprocmask')
+    def _(I, a, c):
+        cur = set(getattr(I, 'sigmask', ()))
+        how = I.concretize(a[0])
+        if not _isnull(I, a[2]): _sigset(I, a[2]).data = set(cur)
+        if not _isnull(I, a[1]):
+            new = set(_sigset(I, a[1]).data)
+            if how == 0: cur |= new
+            elif how == 1: cur -= new
+            elif how == 2: cur = new
+            else: return -1
+        I.sigmask = frozenset(cur)
+        return 0
